@@ -58,7 +58,7 @@ var fracs = []float64{-2.5, -0.75, -0.5, 0.25, 0.5, 1.5, 2.25, 2.5, 3.75, 9.5, 1
 var plainStrs = []string{"", "a", "b", "ab", "abc", "B", "Ab", "aB", "b a", "10", "9", "1", "1.0", "01", "1e0", "007", "7", "7.0", "x", "xy", "xyz", "Zed", "zed", "m-n", "m", "日本", "日", "→x"}
 
 // LIKE-hostile strings: regexp metacharacters, wildcards as data, newline
-var hostileStrs = []string{"(", "a(b", "a.b", "axb", "a*b", "a+", "[x]", "^a", "a$", "a|b", "{1}", "a?b", "50%", "a_b", "a%b", "a\nb", "A.B", "it's", "q?", "\\d"}
+var hostileStrs = []string{"(", "a(b", "a.b", "axb", "a*b", "a+", "[x]", "^a", "a$", "a|b", "{1}", "a?b", "50%", "a_b", "a%b", "a\nb", "A.B", "it's", "q?", "\\d", "a\\b", "c:\\x"}
 
 func genIntVal(t *rapid.T, label string) float64 {
 	if rapid.IntRange(0, 19).Draw(t, label+".big") == 0 {
@@ -95,11 +95,7 @@ func genPool(t *rapid.T, kind string, hostile bool, nonZero bool, label string) 
 			pool = append(pool, v)
 		case "str":
 			if hostile && rapid.IntRange(0, 2).Draw(t, l+".h") == 0 {
-				s := rapid.SampledFrom(hostileStrs).Draw(t, l)
-				if strings.Contains(s, "\\") {
-					s = "q"
-				}
-				pool = append(pool, s)
+				pool = append(pool, rapid.SampledFrom(hostileStrs).Draw(t, l))
 			} else {
 				pool = append(pool, rapid.SampledFrom(plainStrs).Draw(t, l))
 			}
@@ -308,13 +304,18 @@ func likePattern(t *rapid.T, c *Col, label string) string {
 			sb.WriteString(rapid.SampledFrom(alpha).Draw(t, fmt.Sprintf("%s.f%d", label, i)))
 		}
 	case 6: // metacharacter literal pattern taken from the hostile list
-		s := rapid.SampledFrom(hostileStrs).Draw(t, label+".h")
-		if strings.Contains(s, "\\") {
-			s = "a.b"
-		}
-		sb.WriteString(s)
+		sb.WriteString(rapid.SampledFrom(hostileStrs).Draw(t, label+".h"))
 	}
 	p := sb.String()
+	// a backslash is an ordinary character of a pattern when an ordinary character follows it; in front of a
+	// wildcard, of another backslash or at the end it may be read as an escape (left open): such patterns are
+	// not generated
+	for i := 0; i < len(p); i++ {
+		if p[i] == '\\' && (i+1 == len(p) || strings.ContainsRune("%_\\", rune(p[i+1]))) {
+			p = strings.ReplaceAll(p, "\\", "")
+			break
+		}
+	}
 	if rapid.IntRange(0, 3).Draw(t, label+".flip") == 0 {
 		if rapid.Bool().Draw(t, label+".up") {
 			p = strings.ToUpper(p)
